@@ -1,5 +1,1 @@
-let () =
-  match Array.to_list Sys.argv with
-  | [_; "value"] -> Drv_value.run false
-  | [_; "value-pinned"] -> Drv_value.run true
-  | _ -> prerr_endline "usage: modelrun <model>"; exit 2
+let () = Registry.dispatch ()
